@@ -2228,9 +2228,16 @@ fn render_table_tree<T: Write, D: TextDecorator>(
 
             // If the cell has a colspan>1, then spread its size between the
             // columns.
-            estimate.size /= cell.colspan;
-            estimate.min_width /= cell.colspan;
+            // Give the remainder to the first columns so that a small cell
+            // is not rounded down to nothing in every column it spans.
+            let (size, size_rem) = (estimate.size / cell.colspan, estimate.size % cell.colspan);
+            let (min_width, min_rem) = (
+                estimate.min_width / cell.colspan,
+                estimate.min_width % cell.colspan,
+            );
             for i in 0..cell.colspan {
+                estimate.size = size + usize::from(i < size_rem);
+                estimate.min_width = min_width + usize::from(i < min_rem);
                 col_sizes[colno + i] = (col_sizes[colno + i]).max(estimate);
             }
             colno += cell.colspan;
